@@ -903,6 +903,7 @@ class C08(Prop):
     yield from self.thread_cases(rng, 250 if tier == 'quick' else 5000)
     yield from self.constructed_sealed_cases(rng, 300 if tier == 'quick' else 6000)
     yield from self.shared_sealed_cases(rng, 300 if tier == 'quick' else 6000)
+    yield from self.functor_cases()
     yield from self.grid_cases()
     yield from self.discovered_cases()
     yield from self.shallow_seal_cases()
@@ -1480,7 +1481,91 @@ class C08(Prop):
     yield from self.generate(rng.fork(), 'quick')
 
   # -- execution --------------------------------------------------------------------------
+  # -- pg.Functor receivers (oracle only) ---------------------------------------------------
+  def functor_cases(self):
+    """Exhaustive: a bound pg.Functor (function-based / class-based) x how it is sealed (not, seal(),
+    shallow sym_seal()) x its accessor_writable flag x stacks of as_sealed / allow_writable_accessors
+    scopes x the calls `del f.a`, `f.a = v`, `f.rebind(a=v)`, `f.rebind(a=MISSING_VALUE)`."""
+    stacks = [[], [True], [False], [None], [False, True], [True, None]]
+    for kind in ('fn', 'cls'):
+      for how in ('none', 'seal', 'sym_seal'):
+        for acc in (True, False):
+          for ss in stacks:
+            for as_ in stacks:
+              for op in ('del', 'set', 'rebind', 'rebind_del'):
+                yield {'functor': kind, 'how': how, 'acc': acc, 'sealed_scopes': ss, 'acc_scopes': as_, 'op': op,
+                       'tree': None, 'steps': []}
+
+  def impl_functor(self, case):
+    import contextlib
+    import pyglove as pg
+    if case['functor'] == 'fn':
+      @pg.functor([('a', pg.typing.Any(default=1)), ('b', pg.typing.Any(default=2))])
+      def c08fn(a, b):
+        return a
+      f = c08fn(a=5, b=6)
+    else:
+      class C08Fun(pg.Functor):
+        a: pg.typing.Any(default=1)
+        b: pg.typing.Any(default=2)
+        def _call(self):
+          return self.a
+      f = C08Fun(a=5, b=6)
+    f.set_accessor_writable(case['acc'])
+    if case['how'] == 'seal':
+      f.seal(True)
+    elif case['how'] == 'sym_seal':
+      f.sym_seal(True)
+    def state():
+      return {'a': repr(f.sym_getattr('a', 'MISSING')), 'b': repr(f.sym_getattr('b', 'MISSING')),
+              'sealed': f.sym_sealed, 'acc': f.accessor_writable}
+    pre = state()
+    with contextlib.ExitStack() as st:
+      for v in case['sealed_scopes']:
+        st.enter_context(pg.as_sealed(v))
+      for v in case['acc_scopes']:
+        st.enter_context(pg.allow_writable_accessors(v))
+      try:
+        if case['op'] == 'del':
+          del f.a
+        elif case['op'] == 'set':
+          f.a = 9
+        elif case['op'] == 'rebind':
+          f.rebind(a=9)
+        else:
+          f.rebind(a=pg.MISSING_VALUE)
+        res = 'ok'
+      except pg.WritePermissionError:
+        res = 'perm'
+      except Exception as e:    # pylint: disable=broad-except
+        res = type(e).__name__
+    return {'model': None, 'functor': {'res': res, 'pre': pre, 'post': state()}, 'steps': [], 'pre': None}
+
+  def oracle_functor(self, case, out):
+    o = out['functor']
+    ss, as_ = case['sealed_scopes'], case['acc_scopes']
+    by_scope_s = bool(ss) and ss[-1] is not None
+    sealed = ss[-1] if by_scope_s else case['how'] != 'none'
+    by_scope_a = bool(as_) and as_[-1] is not None
+    writable = as_[-1] if by_scope_a else case['acc']
+    op = case['op']
+    what = 'functor(%s) %s, accessor_writable=%s, as_sealed%s, allow_writable_accessors%s, %s -> %s, %s -> %s' % (
+        case['functor'], case['how'], case['acc'], ss, as_, op, o['res'], o['pre'], o['post'])
+    if sealed:
+      if o['post'] != o['pre']:
+        return {'signature': 'functor-sealed-modified:%s:%s' % (op, 'scope' if by_scope_s else case['how']), 'what': what}
+      if o['res'] != 'perm':
+        return {'signature': 'functor-sealed-no-error:%s:%s' % (op, 'scope' if by_scope_s else case['how']), 'what': what}
+    elif not writable and op in ('del', 'set'):
+      if o['post'] != o['pre'] or o['res'] != 'perm':
+        return {'signature': 'functor-accessor-no-error:%s:%s' % (op, 'scope' if by_scope_a else 'flag'), 'what': what}
+    elif o['res'] == 'perm':
+      return {'signature': 'functor-spurious-permission-error:' + op, 'what': what}
+    return None
+
   def model_request(self, case):
+    if case.get('functor'):
+      return None
     if any(s['kind'] == 'generic' for s in case['steps']):
       return None
     steps = case['steps']
@@ -1502,6 +1587,8 @@ class C08(Prop):
     import pyglove as pg
     # the harness thread starts from "no override" (see Worker._base_scopes)
     with pg.as_sealed(None), pg.allow_writable_accessors(None):
+      if case.get('functor'):
+        return self.impl_functor(case)
       return self._impl_body(case)
 
   def _impl_body(self, case):
@@ -1598,6 +1685,8 @@ class C08(Prop):
 
   # -- the property itself ------------------------------------------------------------------
   def oracle(self, case, out):
+    if case.get('functor'):
+      return self.oracle_functor(case, out)
     pre = out['pre']
     want = self.model_tree(case)
     if out.get('pre_links') and (out['pre_links']['tree'] or out['pre_links']['ext']):
@@ -1786,6 +1875,8 @@ class C08(Prop):
     return None
 
   def nontrivial(self, case, out):
+    if case.get('functor'):
+      return True
     t = case['tree']
     for s in case['steps']:
       if s['kind'] in ('seal', 'enter'):
@@ -1801,6 +1892,9 @@ class C08(Prop):
     return False
 
   def describe(self, case, out):
+    if case.get('functor'):
+      return ['functor:' + case['functor'], 'functor-sealed-by:' + case['how'], 'functor-op:' + case['op'],
+              'functor-result:' + out['functor']['res']]
     h = ['steps:%d' % len(case['steps'])]
     if case.get('flag_history'):
       h.append('flag-history')
@@ -1844,6 +1938,8 @@ class C08(Prop):
     return h
 
   def shrink_candidates(self, case):
+    if case.get('functor'):
+      return
     steps = case['steps']
     if case.get('threads'):
       # calls go one by one; a scope goes with its own leave (matched per thread)
